@@ -39,12 +39,12 @@ macro "res_simp" " at " h:ident : tactic => `(tactic|
   simp only [bind_panic_iff, bind_ok_iff, set_panic_iff, set_ok_iff, get_panic_iff, get_ok_iff, blit_panic_iff, blit_ok_iff,
     fill_panic_iff, fill_ok_iff, demand_panic_iff, demand_ok_iff, ex_elim, ex_elim_unit, put_len, chars_length,
     List.length_replicate, List.length_cons, List.length_nil, reduceCtorEq, and_false, or_false, false_or, false_and,
-    exists_false, exists_const, Res.ok.injEq] at $h:ident)
+    exists_false, exists_const, Res.ok.injEq, Nat.sub_zero, Nat.zero_add] at $h:ident)
 macro "res_simp_goal" : tactic => `(tactic|
   simp only [bind_panic_iff, bind_ok_iff, set_panic_iff, set_ok_iff, get_panic_iff, get_ok_iff, blit_panic_iff, blit_ok_iff,
     fill_panic_iff, fill_ok_iff, demand_panic_iff, demand_ok_iff, ex_elim, ex_elim_unit, put_len, chars_length,
     List.length_replicate, List.length_cons, List.length_nil, reduceCtorEq, and_false, or_false, false_or, false_and,
-    exists_false, exists_const, Res.ok.injEq])
+    exists_false, exists_const, Res.ok.injEq, Nat.sub_zero, Nat.zero_add])
 
 /-! ## padding and exponent -/
 
@@ -77,8 +77,6 @@ theorem padBuf_hi (b : WBuf) (cursor count exact : Nat) :
   unfold padBuf; split
   · rename_i h
     simp only [put_hi, List.length_replicate]
-    have : ¬ (exact - count = 0) := by omega
-    simp [this]
   · rfl
 
 /-! ### exponent -/
@@ -110,7 +108,7 @@ theorem writeExponentB_ok_facts (fmt : Format) (feats : Features) (b : WBuf) (cu
   simp only [put_hi, List.length_cons, List.length_nil]
   generalize (numeral fmt.exponentRadix e.natAbs).length = n
   generalize (expSign fmt feats e).length = s
-  split <;> split <;> simp <;> omega
+  omega
 
 /-! ### the fraction part of scientific notation -/
 
@@ -151,6 +149,16 @@ theorem sciBody_panic_iff (fmt : Format) (n : Nat) (frac : List Nat) (o : WOpts)
         · res_simp at h; omega
         · res_simp_goal; omega
 
+theorem sciBody_nofault (fmt : Format) (n : Nat) (frac : List Nat) (o : WOpts) (b : WBuf) :
+    sciBody fmt n frac o b ≠ .fault := by
+  unfold sciBody
+  dsimp only
+  repeat' split
+  · intro h; cases h
+  · exact bind_nofault _ _ (blit_nofault _ _ _) (fun _ => padZeros_nofault _ _ _ _)
+  · exact bind_nofault _ _ (set_nofault _ _ _) (fun _ => by intro h; cases h)
+  · exact bind_nofault _ _ (blit_nofault _ _ _) (fun _ => by intro h; cases h)
+
 theorem sciBody_ok_facts (fmt : Format) (n : Nat) (frac : List Nat) (o : WOpts) (b : WBuf) (r : Out)
     (h : sciBody fmt n frac o b = .ok r) :
     r.buf.len = b.len ∧ r.cursor = bodyCur fmt n o ∧
@@ -168,8 +176,8 @@ theorem sciBody_ok_facts (fmt : Format) (n : Nat) (frac : List Nat) (o : WOpts) 
       simp only [bind_ok_iff, blit_ok_iff, padZeros_ok_iff2, ex_elim, put_len] at h
       obtain ⟨_, _, rfl⟩ := h
       refine ⟨by simp, by simp [padCur, c2], ?_⟩
-      simp only [padBuf_hi, if_pos c2, put_hi]
-      split <;> omega
+      simp only [padBuf_hi, if_pos c2, put_hi, List.length_replicate]
+      omega
     · rw [if_neg c2] at h; rw [if_neg c2, if_neg c2]
       by_cases c3 : n = 1
       · rw [if_pos c3] at h; rw [if_pos c3, if_pos c3]
@@ -181,7 +189,7 @@ theorem sciBody_ok_facts (fmt : Format) (n : Nat) (frac : List Nat) (o : WOpts) 
         obtain ⟨_, rfl⟩ := h
         refine ⟨by simp, rfl, ?_⟩
         simp only [put_hi]
-        split <;> omega
+        omega
 
 /-! ## `compact.rs` -/
 
@@ -191,13 +199,13 @@ macro "fn_simp" " at " h:ident : tactic => `(tactic|
     fill_panic_iff, fill_ok_iff, demand_panic_iff, demand_ok_iff, padZeros_panic_iff, padZeros_ok_iff2,
     ex_elim, ex_elim_unit, put_len, padBuf_len, chars_length,
     List.length_replicate, List.length_cons, List.length_nil, reduceCtorEq, and_false, or_false, false_or, false_and,
-    exists_false, exists_const, Res.ok.injEq] at $h:ident)
+    exists_false, exists_const, Res.ok.injEq, Nat.sub_zero, Nat.zero_add] at $h:ident)
 macro "fn_simp_goal" : tactic => `(tactic|
   simp only [bind_panic_iff, bind_ok_iff, set_panic_iff, set_ok_iff, get_panic_iff, get_ok_iff, blit_panic_iff, blit_ok_iff,
     fill_panic_iff, fill_ok_iff, demand_panic_iff, demand_ok_iff, padZeros_panic_iff, padZeros_ok_iff2,
     ex_elim, ex_elim_unit, put_len, padBuf_len, chars_length,
     List.length_replicate, List.length_cons, List.length_nil, reduceCtorEq, and_false, or_false, false_or, false_and,
-    exists_false, exists_const, Res.ok.injEq])
+    exists_false, exists_const, Res.ok.injEq, Nat.sub_zero, Nat.zero_add])
 
 def needNegC (k n exact : Nat) : Nat := max (k + 1 + n) (needPad (k + 1 + n) n exact)
 
@@ -236,11 +244,11 @@ macro "panic_tac" "[" hs:Lean.Parser.Tactic.simpLemma,* "]" : tactic => `(tactic
   (constructor <;> intro h
    · simp only [needPad, $hs,*, ↓reduceIte, not_true_eq_false, not_false_eq_true, Bool.false_eq_true] at h ⊢
      fn_simp at h
-     try simp only [needPad, $hs,*, ↓reduceIte] at h
+     try simp only [needPad, $hs,*, ↓reduceIte, true_and, and_true, not_true_eq_false, not_false_eq_true, or_false, false_or, or_true, true_or, and_false, false_and] at h
      omega
    · simp only [needPad, $hs,*, ↓reduceIte, not_true_eq_false, not_false_eq_true, Bool.false_eq_true] at h ⊢
      fn_simp_goal
-     try simp only [needPad, $hs,*, ↓reduceIte]
+     try simp only [needPad, $hs,*, ↓reduceIte, true_and, and_true, not_true_eq_false, not_false_eq_true, or_false, false_or, and_false, false_and]
      omega))
 
 /-- `hi` goal after substitution of the result -/
@@ -306,6 +314,161 @@ theorem posC_ok_facts (ds : List Nat) (e : Int) (o : WOpts) (b : WBuf) (r : Out)
     fn_simp at h
     simp only [List.length_take, List.length_drop, hmin] at h
     obtain ⟨_, _, _, _, rfl⟩ := h
+    refine ⟨by simp, ?_, ?_⟩
+    · simp only [padCur, needPad]; split <;> omega
+    · hi_tac
+
+def needSciC (fmt : Format) (feats : Features) (n : Nat) (o : WOpts) (s nl : Nat) : Nat :=
+  max (needBody fmt n (n - 1) o) (needExp feats fmt.exponentRadix (bodyCur fmt n o) s nl)
+
+theorem needExp_ge (feats : Features) (radix cursor s n : Nat) : cursor + 1 ≤ needExp feats radix cursor s n := by
+  unfold needExp; omega
+theorem bodyCur_ge (fmt : Format) (n : Nat) (o : WOpts) : 1 ≤ bodyCur fmt n o := by
+  unfold bodyCur; repeat' split
+  all_goals omega
+
+theorem sciC_panic_iff (fmt : Format) (feats : Features) (ds : List Nat) (e : Int) (o : WOpts) (b : WBuf) :
+    sciC fmt feats ds e o b = .panic ↔
+      b.len < needSciC fmt feats ds.length o (expSign fmt feats e).length (numeral fmt.exponentRadix e.natAbs).length := by
+  unfold sciC needSciC
+  have hge := needExp_ge feats fmt.exponentRadix (bodyCur fmt ds.length o) (expSign fmt feats e).length
+    (numeral fmt.exponentRadix e.natAbs).length
+  have hbc := bodyCur_ge fmt ds.length o
+  constructor <;> intro h
+  · simp only [bind_panic_iff, set_panic_iff, set_ok_iff, ex_elim, put_len, sciBody_panic_iff, chars_length,
+      List.length_tail] at h
+    rcases h with h | ⟨_, h | ⟨_, h | ⟨r1, h1, h2⟩⟩⟩
+    · omega
+    · omega
+    · omega
+    · obtain ⟨hl, hc, _⟩ := sciBody_ok_facts _ _ _ _ _ _ h1
+      rw [writeExponentB_panic_iff, hl, hc] at h2
+      simp only [put_len] at h2
+      omega
+  · simp only [bind_panic_iff, set_panic_iff, set_ok_iff, ex_elim, put_len, sciBody_panic_iff, chars_length,
+      List.length_tail]
+    by_cases h0 : 0 < b.len
+    · refine Or.inr ⟨h0, ?_⟩
+      by_cases h1 : 1 < b.len
+      · refine Or.inr ⟨h1, ?_⟩
+        by_cases h2 : b.len < needBody fmt ds.length (ds.length - 1) o
+        · exact Or.inl h2
+        · right
+          have hnp : sciBody fmt ds.length (chars ds.tail) o ((b.put 0 [digitChar (ds.headD 0)]).put 1 [o.dp]) ≠ .panic := by
+            rw [Ne, sciBody_panic_iff]; simp only [put_len, chars_length, List.length_tail]; exact h2
+          have hnf := sciBody_nofault fmt ds.length (chars ds.tail) o ((b.put 0 [digitChar (ds.headD 0)]).put 1 [o.dp])
+          cases hs : sciBody fmt ds.length (chars ds.tail) o ((b.put 0 [digitChar (ds.headD 0)]).put 1 [o.dp]) with
+          | panic => exact absurd hs hnp
+          | fault => exact absurd hs hnf
+          | ok r1 =>
+            refine ⟨r1, rfl, ?_⟩
+            obtain ⟨hl, hc, _⟩ := sciBody_ok_facts _ _ _ _ _ _ hs
+            rw [writeExponentB_panic_iff, hl, hc]
+            simp only [put_len]
+            omega
+      · left; exact h1
+    · left; exact h0
+
+theorem sciC_ok_facts (fmt : Format) (feats : Features) (ds : List Nat) (e : Int) (o : WOpts) (b : WBuf) (r : Out)
+    (h : sciC fmt feats ds e o b = .ok r) :
+    r.buf.len = b.len ∧
+    r.cursor ≤ needSciC fmt feats ds.length o (expSign fmt feats e).length (numeral fmt.exponentRadix e.natAbs).length ∧
+    r.buf.hi ≤ max b.hi
+      (needSciC fmt feats ds.length o (expSign fmt feats e).length (numeral fmt.exponentRadix e.natAbs).length) := by
+  unfold sciC at h
+  unfold needSciC
+  simp only [bind_ok_iff, set_ok_iff, ex_elim] at h
+  obtain ⟨_, _, r1, h1, h2⟩ := h
+  obtain ⟨hl, hc, hh⟩ := sciBody_ok_facts _ _ _ _ _ _ h1
+  obtain ⟨el, ec, eh⟩ := writeExponentB_ok_facts _ _ _ _ _ _ _ h2
+  simp only [put_len, chars_length, List.length_tail, put_hi, List.length_cons, List.length_nil] at hl hh
+  rw [hc] at ec
+  refine ⟨by rw [el, hl], ?_, ?_⟩
+  · rw [ec]; unfold needExp; omega
+  · rw [eh, ec]; unfold needExp
+    have := bodyCur_ge fmt ds.length o
+    simp at hh
+    omega
+
+/-! ## `algorithm.rs` -/
+
+def needNegN (nd n0 count : Nat) (carried trim : Bool) (k exact : Nat) : Nat :=
+  max (k + 1 + max nd n0)
+    (if carried = true ∧ k + 1 = 2 then (if trim = true then 0 else max 3 (needPad 3 count exact))
+     else if carried = true then needPad (k + 1) count exact
+     else needPad (k + 1 + count) count exact)
+
+theorem negN_panic_iff (nd : Nat) (ds : List Nat) (e : Int) (o : WOpts) (b : WBuf) (hk : 1 ≤ e.natAbs)
+    (hc1 : 1 ≤ (truncateAndRound ds o).1.length) (hc2 : (truncateAndRound ds o).1.length ≤ ds.length) :
+    negN nd ds e o b = .panic ↔
+      b.len < needNegN nd ds.length (truncateAndRound ds o).1.length (truncateAndRound ds o).2 o.trim e.natAbs
+        (minExactDigits (truncateAndRound ds o).1.length o) := by
+  unfold negN needNegN
+  dsimp only
+  generalize truncateAndRound ds o = tr at hc1 hc2 ⊢
+  obtain ⟨ds', c⟩ := tr
+  dsimp only at hc1 hc2 ⊢
+  generalize e.natAbs = k at hk ⊢
+  generalize minExactDigits ds'.length o = ex
+  by_cases c1 : c = true
+  · subst c1
+    by_cases c2 : k + 1 = 2
+    · by_cases c3 : o.trim = true
+      · panic_tac [c2, c3, and_self]
+      · by_cases hc : ds'.length < ex
+        · panic_tac [c2, c3, hc, and_self]
+        · panic_tac [c2, c3, hc, and_self]
+    · by_cases hc : ds'.length < ex
+      · panic_tac [c2, hc, and_false, true_and]
+      · panic_tac [c2, hc, and_false, true_and]
+  · have c1' : c = false := by simpa using c1
+    subst c1'
+    by_cases hc : ds'.length < ex
+    · panic_tac [hc, false_and]
+    · panic_tac [hc, false_and]
+
+theorem negN_ok_facts (nd : Nat) (ds : List Nat) (e : Int) (o : WOpts) (b : WBuf) (r : Out)
+    (hc1 : 1 ≤ (truncateAndRound ds o).1.length) (hc2 : (truncateAndRound ds o).1.length ≤ ds.length)
+    (h : negN nd ds e o b = .ok r) :
+    r.buf.len = b.len ∧
+    r.cursor ≤ needNegN nd ds.length (truncateAndRound ds o).1.length (truncateAndRound ds o).2 o.trim e.natAbs
+        (minExactDigits (truncateAndRound ds o).1.length o) ∧
+    r.buf.hi ≤ max b.hi (needNegN nd ds.length (truncateAndRound ds o).1.length (truncateAndRound ds o).2 o.trim e.natAbs
+        (minExactDigits (truncateAndRound ds o).1.length o)) := by
+  unfold negN at h
+  unfold needNegN
+  dsimp only at h
+  generalize truncateAndRound ds o = tr at hc1 hc2 h ⊢
+  obtain ⟨ds', c⟩ := tr
+  dsimp only at hc1 hc2 h ⊢
+  generalize e.natAbs = k at h ⊢
+  generalize minExactDigits ds'.length o = ex at h ⊢
+  by_cases c1 : c = true
+  · subst c1
+    by_cases c2 : k + 1 = 2
+    · by_cases c3 : o.trim = true
+      · simp only [c2, c3, and_self, ↓reduceIte] at h ⊢
+        fn_simp at h
+        obtain ⟨_, _, _, _, _, rfl⟩ := h
+        refine ⟨by simp, by simp; omega, ?_⟩
+        hi_tac
+      · simp only [c2, c3, and_self, ↓reduceIte, Bool.false_eq_true] at h ⊢
+        fn_simp at h
+        obtain ⟨_, _, _, _, _, _, _, _, rfl⟩ := h
+        refine ⟨by simp, ?_, ?_⟩
+        · simp only [padCur, needPad]; split <;> omega
+        · hi_tac
+    · simp only [c2, and_false, ↓reduceIte] at h ⊢
+      fn_simp at h
+      obtain ⟨_, _, _, _, _, _, _, _, rfl⟩ := h
+      refine ⟨by simp, ?_, ?_⟩
+      · simp only [padCur, needPad]; split <;> omega
+      · hi_tac
+  · have c1' : c = false := by simpa using c1
+    subst c1'
+    simp only [Bool.false_eq_true, false_and, ↓reduceIte] at h ⊢
+    fn_simp at h
+    obtain ⟨_, _, _, _, _, _, rfl⟩ := h
     refine ⟨by simp, ?_, ?_⟩
     · simp only [padCur, needPad]; split <;> omega
     · hi_tac
